@@ -236,7 +236,7 @@ func goArgs(vs []tlaval.Value) []interface{} {
 	return out
 }
 
-var reReject = regexp.MustCompile(`<<"REJECT", (\d+), "([^"]*)">>`)
+var reReject = regexp.MustCompile(`<<\s*"REJECT",\s*(\d+),\s*"([^"]*)"\s*>>`)
 
 func runC10(r *evid.Run) {
 	scratch, err := os.MkdirTemp("", "bmverif-c10-")
